@@ -15,6 +15,7 @@ and decided for ALL schedules on two tree shapes with symbolic liveness:
 Assertions: callback of P starts only after the callbacks of all live non-leaf children ended; every live non-leaf
 tile exactly once, dead tiles never; no deadlock; termination with all workers exited and walk() returned.
 """
+from vlib.core import soft_attr as core_u
 import itertools
 import os
 import time
@@ -434,7 +435,7 @@ SERIAL_THOROUGH = [("chk_e2e_depth2", 900), ("chk_e2e_depth2_apex1", 900)]
 
 
 def check(run):
-    run.uses(tp.Pyramid.walk, tp.Pyramid._walk_serial, tp.Pyramid._walk_parallel, tp._mp_walk_worker, tp.Pyramid._generator,
+    run.uses(tp.Pyramid.walk, core_u(tp.Pyramid, "_walk_serial"), core_u(tp.Pyramid, "_walk_parallel"), core_u(tp, "_mp_walk_worker"), core_u(tp.Pyramid, "_generator"),
              tp.PyramidReductionIterator.__next__, tp.PyramidReductionIterator.set_data, tp.Pyramid.count_operations)
     run.bound(serial="one-step obligations for any depth; end-to-end depth 1 (quick) / 2 (thorough) with symbolic filter masks and apex",
               parallel_trees="S1 (root + 4 level-1 tiles), S2 (depth-3 slice with released intermediate parents), S3 (sub-pyramid apex); liveness of every seed tile symbolic",
